@@ -1353,3 +1353,19 @@ B('bat-dispatcher-cancels-a-batch', ['C09'], ['C09-R7'],
   (A, "    async def _processing_loop(self) -> None:\n", "    def _abandon(self, task: Any) -> None:\n        task.cancel()\n\n    async def _processing_loop(self) -> None:\n"))
 B('bat-dispatcher-evicts-by-key', ['C09'], ['C09-R7'],
   (A, "    async def _processing_loop(self) -> None:\n", "    def _forget(self, key: str) -> None:\n        self._retention_cache.pop(key, None)\n\n    async def _processing_loop(self) -> None:\n"))
+
+# --- rules from seeded wave 11, second batch -----------------------------------------------------------
+B('bat-retention-cache-rebuilt', ['C09'], ['C09-R7'],
+  (A, "    async def _processing_loop(self) -> None:\n", "    def _trim(self) -> None:\n        self._retention_cache = dict(self._retention_cache)\n\n    async def _processing_loop(self) -> None:\n"))
+B('oslock-unlock-hook-is-a-noop', ['C02'], ['C02-R5'],
+  (F, "    def _unlock(self, fd: int) -> None:\n        fcntl.flock(fd, fcntl.LOCK_UN)\n", "    def _unlock(self, fd: int) -> None:\n        pass  # the close that follows drops the flock\n"))
+B('sync-bridge-holds-the-loop-lock', ['C17'], ['C17-R2'],
+  (A, "    with ThreadPoolExecutor(1) as pool:\n        future = pool.submit(_set_loop_and_queue_elements, loop)", "    with ThreadPoolExecutor(1) as pool, _get_loop_lock(loop):\n        future = pool.submit(_set_loop_and_queue_elements, loop)"))
+B('split-source-wrapped-in-a-view', ['C18'], ['C18-R3'],
+  (I, "    if callable(condition):\n        iterable, ci = tee(iterable)", "    iterable = iter(iterable)\n    if callable(condition):\n        iterable, ci = tee(iterable)"))
+B('split-predicate-tried-on-the-first-element', ['C18'], ['C18-R2'],
+  (I, "    if callable(condition):\n        iterable, ci = tee(iterable)", "    if callable(condition):\n        condition = _checked(condition, iterable)\n        iterable, ci = tee(iterable)"),
+  (I, "def exhaust(", "def _checked(condition: Any, iterable: Any) -> Any:\n    if isinstance(iterable, (list, tuple)) and len(iterable):\n        condition(iterable[0])\n    return condition\n\n\ndef exhaust("))
+B('cache-mapping-behind-a-view', ['C14'], ['C14-R4'],
+  (A, "    _cache: _CacheMap = cache if cache is not None else {}\n", "    _cache: _CacheMap = _View(cache if cache is not None else {})\n"),
+  (A, "E = TypeVar('E', bound=BaseException)\n", "class _View(dict):  # type: ignore\n    def __init__(self, inner: Any) -> None:\n        super().__init__()\n        self.inner = inner\n\n\nE = TypeVar('E', bound=BaseException)\n"))
